@@ -49,7 +49,7 @@ def parallel_arrays_move_together(ctx):
     M = ctx.cls(MO + ':Monitor')
     _ref(ctx, ctx.touch(M.methods['__call__']), '''def __call__(self, x, y, id=None, **kwds):
     self._x.append(listify(x))
-    _type = iter if hasattr(y, '__len__') else None
+    _type = iter if (hasattr(y, '__len__') and getattr(y, 'ndim', 1)) else None
     self._y.append(listify(self._k(y, _type)))
     self._id.append(id)
 ''', 'Monitor.__call__', 'one append to each of _x, _y (k-scaled), _id')
